@@ -104,6 +104,8 @@ def all_pyecc_code():
     return out
 
 
+GOLDEN_BASE = None      # (digests, slots) of the pristine data snapshot, set by the server
+
 # the line callback reads this module-global pair: [events so far, next trigger]
 CNT = [0, INF]
 _SLOW = None
@@ -234,7 +236,17 @@ def run_golden(req):
         outcome = outcome_of_exception(e)
     count = CNT[0]
     post = [C.canon(a) for a in args] + [C.canon(kwargs[k]) for k in sorted(kwargs)]
-    return {"outcome": outcome, "count": count, "i2": post == pre}
+    out = {"outcome": outcome, "count": count, "i2": post == pre}
+    if req.get("want_touched") and GOLDEN_BASE is not None:
+        # which pieces of hidden state does this call, made alone, touch?  (asked for
+        # only once a run has seen hidden state change: it aims the second phase)
+        try:
+            cur, _ = C.snapshot(data_only=True)
+            _, probes = C.diff_snapshots(GOLDEN_BASE[0], cur, GOLDEN_BASE[1])
+            out["touched"] = sorted({"%s:%s" % (kind, k) for k, kind in probes})[:12]
+        except Exception:
+            out["touched"] = []
+    return out
 
 
 def _harness_fn(req):
